@@ -345,6 +345,12 @@ impl Scrut {
     }
     /// content the generator declares invalid (must be reported as an error)
     pub fn invalid(&self) -> Option<&'static str> {
+        // an inline configuration that is not `{..}` up to the end of the line
+        if let Some(c) = &self.cfg_text {
+            if !(c.starts_with('{') && c.ends_with('}')) {
+                return Some("bad-inline-config");
+            }
+        }
         let exits = self.body.iter().filter(|b| matches!(b, Body::Exit(_))).count();
         if exits > 1 {
             return Some("two-exit-codes");
@@ -1100,6 +1106,11 @@ impl MdGen<'_> {
                 s.cfg_text = Some(cfg_flow_text(self.rng, &pairs));
                 s.cfg = cfg;
             }
+        }
+        if self.opts.invalid && self.rng.chance(1, 50) {
+            // a brace that is never closed, text behind the closing brace
+            s.cfg_text = Some(self.rng.pick(&["{timeout: 3s", "{timeout: 1s} trailing", "{keep_crlf: true", "{detached: true} {}x"]).to_string());
+            s.cfg = Cfg::default();
         }
         match self.rng.below(12) {
             0 => s.ws = "trail".into(),
@@ -2292,11 +2303,11 @@ pub fn md_wellformed(doc: &MdDoc) -> Result<(), String> {
                     return Err("comment without #".into());
                 }
                 if let Some(c) = &s.cfg_text {
-                    if !c.starts_with('{') || !c.ends_with('}') || c.contains('\n') {
+                    if !c.starts_with('{') || c.contains('\n') || (!c.ends_with('}') && s.invalid() != Some("bad-inline-config")) {
                         return Err("config text must be {...}".into());
                     }
                 }
-                if s.cmd.iter().any(|c| c.contains('\n') || c.is_empty()) {
+                if s.cmd.iter().any(|c| c.contains('\n') || (c.is_empty() && s.cmd.len() > 1)) {
                     return Err("command line empty or with line break".into());
                 }
                 let mut in_cmd = true;
